@@ -9,6 +9,7 @@ VH_GROUP(thr_s8) { vh::ubsan_counts() = false; run_gray<int8_t, gil::gray8s_pixe
 VH_GROUP(thr_u16) { vh::ubsan_counts() = false; run_gray<uint16_t, gil::gray16_pixel_t, true>(ctx, "u16"); }
 VH_GROUP(thr_s16) { vh::ubsan_counts() = false; run_gray<int16_t, gil::gray16s_pixel_t, true>(ctx, "s16"); }
 VH_GROUP(thr_mixed) { vh::ubsan_counts() = false; run_gray_mixed<uint16_t, gil::gray16_pixel_t, uint8_t, gil::gray8_pixel_t>(ctx, "u16>u8"); run_gray_mixed<int8_t, gil::gray8s_pixel_t, uint8_t, gil::gray8_pixel_t>(ctx, "s8>u8"); run_gray_mixed<uint8_t, gil::gray8_pixel_t, int16_t, gil::gray16s_pixel_t>(ctx, "u8>s16"); }
+VH_GROUP(thr_layouts) { vh::ubsan_counts() = false; run_gray_layouts(ctx); }
 VH_GROUP(thr_f32) { vh::ubsan_counts() = false; run_gray<float, gil::pixel<float, gil::gray_layout_t>, true>(ctx, "f32"); }
 
 // rgb8: per-channel ramps r = i, g = 255 - i, b = 7 i + 3 (mod 256): every channel sees every value, and at
